@@ -39,3 +39,76 @@ Theorem C06_strip_forks_irrelevant : forall V (sem : N -> V -> V -> V -> V -> V)
     iexec sem (stemmed stems) (build_ops c true) (init_env zero c stim) (stemmed stems l)
     = iexec sem (fun x => x) (build_ops c false) (init_env zero c stim) l.
 Proof. intros V sem zero. exact (KV.Proofs.StripInvariance.strip_forks_irrelevant sem zero). Qed.
+
+(** ... and so do k cycles (LogicSim.cycle at line level, Model/CycleSem.v): the assignment and result vectors after k cycles with
+    forks stripped equal those without *)
+From KV Require Import Model.CycleSem.
+From KV Require Proofs.CycleProofs Proofs.EndToEnd.
+From Coq Require Import ZArith.
+Theorem C06_cycles_strip_irrelevant : forall V (sem : N -> V -> V -> V -> V -> V) (zero : V) c len stems k st,
+  wf_netlist c -> comb_acyclic c -> KV.Proofs.EndToEnd.gates_known c -> List.length (c_lines c) <= len ->
+  build_stems c true len = Some stems ->
+  (forall x b cc d, sem (lutv "BUF1") x b cc d = x) ->
+  (forall n, n < List.length (c_nodes c) -> iface_pos c n = None -> is_fork (get_node c n) = true ->
+     n_kind (get_node c n) = "__fork__"%string) ->
+  line_cycles_strip sem zero c stems k st = line_cycles sem zero c k st.
+Proof. intros V sem zero. exact (KV.Proofs.CycleProofs.cycles_strip_irrelevant sem zero). Qed.
+(** c_reuse clause (memory level): for EVERY well-formed acyclic netlist of known primitives, any value domain and op semantics,
+    and initial memories holding the same stimulus at the PI/PPI slots and the zero slot of the respective map, the flat memory
+    after the scheduled ops holds the same value at every observed (PO/PPO) slot whether or not signal memory is reused; the
+    schedule, the aliases and the stimulus / observed slots themselves do not depend on c_reuse. *)
+From KV Require Import Model.SimOpsCert.
+From KV Require Proofs.EndToEnd Proofs.ReuseProofs.
+Theorem C06_c_reuse_irrelevant : forall V (sem : N -> V -> V -> V -> V -> V) (dflt : V) c caps cmin so0 so1 (e : ienv) (m0 m1 : fmem),
+  wf_netlist c -> comb_acyclic c -> (0 < cmin)%N -> KV.Proofs.EndToEnd.gates_known c ->
+  build c caps cmin false false = Some so0 -> build c caps cmin true false = Some so1 ->
+  (forall x l, In x (so_init so0) -> so_loc so0 x = Some l -> m0 l = e x) ->
+  (forall x l, In x (so_init so1) -> so_loc so1 x = Some l -> m1 l = e x) ->
+  forall p, In p (so_final so1) ->
+    mread dflt (so_loc so1) (mexec sem dflt (so_loc so1) (so_ops so1) m1) p
+    = mread dflt (so_loc so0) (mexec sem dflt (so_loc so0) (so_ops so0) m0) p.
+Proof. intros V sem dflt. exact (KV.Proofs.ReuseProofs.reuse_irrelevant sem dflt). Qed.
+
+Theorem C06_c_reuse_same_interface : forall c caps cmin so0 so1,
+  wf_netlist c -> comb_acyclic c -> (0 < cmin)%N -> KV.Proofs.EndToEnd.gates_known c ->
+  build c caps cmin false false = Some so0 -> build c caps cmin true false = Some so1 ->
+  so_ops so1 = so_ops so0 /\ so_level_starts so1 = so_level_starts so0 /\
+  (forall x, so_alias c so1 x = so_alias c so0 x) /\ so_init so1 = so_init so0 /\ so_final so1 = so_final so0.
+Proof. exact KV.Proofs.ReuseProofs.reuse_same_interface. Qed.
+
+(* with reuse the memory still delivers the line-level value of the line feeding each observed s_node *)
+Theorem C06_end_to_end_reuse : forall V (sem : N -> V -> V -> V -> V -> V) (zero : V) c caps cmin so stim (m0 : fmem),
+  wf_netlist c -> comb_acyclic c -> (0 < cmin)%N -> KV.Proofs.EndToEnd.gates_known c ->
+  build c caps cmin true false = Some so ->
+  (forall x l, In x (so_init so) -> so_loc so x = Some l -> m0 l = init_env zero c stim x) ->
+  forall p, In p (so_final so) ->
+    mread zero (so_loc so) (mexec sem zero (so_loc so) (so_ops so) m0) p
+    = iexec sem (fun x => x) (build_ops c false) (init_env zero c stim) (so_alias c so p).
+Proof. intros V sem zero. exact (KV.Proofs.ReuseProofs.end_to_end_reuse sem zero). Qed.
+
+(** all options at once (memory level): whatever c_reuse and strip_forks are, the flat memory after the scheduled ops holds at the
+    PPO slot of every observed s_node the value that the UNSTRIPPED line-level execution gives the line feeding that s_node;
+    hence any two option combinations agree at every slot both observe. *)
+From KV Require Proofs.ReuseStrip.
+Theorem C06_options_irrelevant_spec : forall V (sem : N -> V -> V -> V -> V -> V) (zero : V) c caps cmin reuse strip so stim (m0 : fmem),
+  wf_netlist c -> comb_acyclic c -> (0 < cmin)%N -> KV.Proofs.EndToEnd.gates_known c ->
+  (strip = true -> KV.Proofs.ReuseStrip.forks_ok c /\ forall x b cc d, sem (lutv "BUF1") x b cc d = x) ->
+  build c caps cmin reuse strip = Some so ->
+  (forall x l, In x (so_init so) -> so_loc so x = Some l -> m0 l = init_env zero c stim x) ->
+  forall p, In p (so_final so) ->
+    exists i l0 t, p = List.length (c_lines c) + 3 + List.length (s_nodes c) + i /\ i < List.length (s_nodes c) /\
+      n_ins (get_node c (nth i (s_nodes c) 0)) = Some l0 :: t /\
+      mread zero (so_loc so) (mexec sem zero (so_loc so) (so_ops so) m0) p
+      = iexec sem (fun x => x) (build_ops c false) (init_env zero c stim) l0.
+Proof. intros V sem zero. exact (KV.Proofs.ReuseStrip.end_to_end_all sem zero). Qed.
+
+Theorem C06_options_irrelevant : forall V (sem : N -> V -> V -> V -> V -> V) (zero : V) c caps cmin r1 s1 r2 s2 so1 so2 stim (m1 m2 : fmem),
+  wf_netlist c -> comb_acyclic c -> (0 < cmin)%N -> KV.Proofs.EndToEnd.gates_known c ->
+  (s1 = true \/ s2 = true -> KV.Proofs.ReuseStrip.forks_ok c /\ forall x b cc d, sem (lutv "BUF1") x b cc d = x) ->
+  build c caps cmin r1 s1 = Some so1 -> build c caps cmin r2 s2 = Some so2 ->
+  (forall x l, In x (so_init so1) -> so_loc so1 x = Some l -> m1 l = init_env zero c stim x) ->
+  (forall x l, In x (so_init so2) -> so_loc so2 x = Some l -> m2 l = init_env zero c stim x) ->
+  forall p, In p (so_final so1) -> In p (so_final so2) ->
+    mread zero (so_loc so1) (mexec sem zero (so_loc so1) (so_ops so1) m1) p
+    = mread zero (so_loc so2) (mexec sem zero (so_loc so2) (so_ops so2) m2) p.
+Proof. intros V sem zero. exact (KV.Proofs.ReuseStrip.options_irrelevant sem zero). Qed.
